@@ -78,6 +78,96 @@ def clause1_parse(ctx, P):
     ctx.floor("C09.1 R-PAIR", 3)
 
 
+# content reads of the bundled parser that are not guarded inside their own function: the first byte at the function's entry
+# offset, which every caller has established to be inside the message (parse_value tests can_access_at_index(0) before it
+# dispatches on that byte; parse_object calls parse_string behind buffer_skip_whitespace(), which never leaves the offset at length)
+PARSER_ENTRY_REREADS = ("parse_string", "parse_array")
+
+
+def clause1b_parser_bounds(ctx, P, cg):
+    """'exactly its own bytes' inside the parser: every read of content[offset + k] in the bundled cJSON parser is dominated by the
+    test offset + k < length (can_access_at_index / can_read) - the byte behind the message (the next length prefix, a stale byte of an
+    earlier message) is never looked at.  The two confirmed re-reads of the first byte at function entry are listed above."""
+    PB = "struct.parse_buffer"
+    ci, oi, li = "#0", "#2", "#1"
+    pbs = P.facts.get("structs", {}).get(PB)
+    if not pbs or len(pbs["fields"]) < 4 or pbs["fields"][0]["ty"] != "i8*":
+        raise AnalysisBroken("struct parse_buffer: layout not recognised")
+
+    def site(t):
+        k = 0
+        if t[0] == "byteoff":
+            k = t[2]
+            t = t[1]
+        if t[0] == "index" and Q.is_field_load(t[1], PB, ci) is not None and Q.is_field_load(t[2], PB, oi) is not None and t[3] == 1:
+            return (Q.is_field_load(t[1], PB, ci), k)
+        return None
+    n = 0
+    bad = None
+    for f in P.functions.values():
+        if f.base != "cJSON.c":
+            continue
+        for i in f.all_insts():
+            if i.op != "load":
+                continue
+            sk = site(P.term(f, i.a[0]))
+            if sk is None:
+                continue
+            B, k = sk
+            n += 1
+            if not isinstance(k, int):
+                bad = bad or (f, i, "a computed index")
+                continue
+            off, ln = ("load", ("field", B, PB, oi)), ("load", ("field", B, PB, li))
+
+            def guard(atom, pol, k=k, off=off, ln=ln):
+                if atom[0] != "cmp" or atom[3] != ln:
+                    return False
+                eff = atom[1] if pol else Q.negate_pred(atom[1])
+                x = atom[2]
+                c = 0 if x == off else (x[2][1][1] if x[0] == "op" and x[1] == "add" and x[2][0] == off and x[2][1][0] == "const" else None)
+                if c is None:
+                    return False
+                return (eff == "ult" and c >= k) or (eff == "ule" and c > k)
+            # what invalidates the test: a store to the offset, or a call that is handed the buffer and can move the offset
+            offaddr = ("field", B, PB, oi)
+            wr = Q.field_writers(P, PB, oi)
+            killers = []
+            for j in f.all_insts():
+                if j.op == "store" and P.term(f, j.a[1]) == offaddr:
+                    killers.append(j)
+                elif j.op == "call" and j.callee and any(P.term(f, a) == B for a in j.a) and (wr & cg.reach(j.callee)):
+                    killers.append(j)
+            if Q.guarded_fresh(P, f, i, guard, killers):
+                continue
+            # entry re-read: k == 0 and no store to the offset can precede it
+            moved = any(j.op == "store" and P.term(f, j.a[1]) == ("field", B, PB, oi) and
+                        (f.dominates(j.block, i.block) and (j.block != i.block or j.idx < i.idx)) for j in f.all_insts())
+            if k == 0 and f.srcname in PARSER_ENTRY_REREADS and not moved and _before_any_offset_store(P, f, i, ("field", B, PB, oi)):
+                continue
+            bad = bad or (f, i, "index %d" % k)
+    ctx.ob("C09.1 R-BOUND", "cJSON.c", "parser-reads-stay-inside-the-message", bad is None and n >= 12,
+           ("%s() reads the input at %s (%s) without having tested that offset + index < length on every path to it: for a message that "
+            "ends there the byte BEHIND the message decides how it parses" % (bad[0].srcname, bad[1].loc, bad[2])) if bad else
+           "%d content reads in the parser, all inside the tested range" % n)
+
+
+def _before_any_offset_store(P, f, load, offaddr):
+    """no path from the entry reaches `load` through a store to the offset member"""
+    stores = [j for j in f.all_insts() if j.op == "store" and P.term(f, j.a[1]) == offaddr]
+    for j in stores:
+        if j.block == load.block:
+            if j.idx < load.idx:
+                return False
+            continue
+        g = P.edge_graph(f)
+        for n_ in g:
+            if n_[1] == j.block:
+                if load.block in P.reach_blocks(f, start=n_):
+                    return False
+    return True
+
+
 def clause2_length(ctx, P, cg):
     BS_OK = Q.enum(P, "BS_OK")
     rl = P.fn("socket_peer.c:read_msg_length")
@@ -509,6 +599,7 @@ def run(ctx):
     for cfg in ctx.configs():
         P, cg = cfg.P, cfg.cg
         clause1_parse(ctx, P)
+        clause1b_parser_bounds(ctx, P, cg)
         clause2_length(ctx, P, cg)
         clause3_state(ctx, P)
         clause4_cursor(ctx, P)
